@@ -1,6 +1,9 @@
 package main
 
-import "fmt"
+import (
+	"bytes"
+	"fmt"
+)
 
 func init() {
 	runners["C05"] = runC05
@@ -28,6 +31,19 @@ func runC05(c *Collector, r *Rng, thorough bool) {
 		n = 4000
 	}
 	kinds := []string{"DSign1", "DSign1U", "DSignature", "DSignMsg", "DProt", "DUnprot"}
+	// corpus: minimised inputs of earlier findings run first
+	for _, cs := range []struct{ kind, hex string }{
+		{"DProt", "46a1d9d9f70126"},                   // label 55799(1)
+		{"DSign1", "d28446a1d9d9f70126a0f64101"},      // same inside a COSE_Sign1
+		{"DUnprot", "a1d9d9f7044101"},                 // standalone unprotected bucket
+		{"DUnprot", "a104d9d9f74101"},                 // 55799 before a governed value
+		{"DUnprot", "a107f6"}, {"DUnprot", "a10780"}, {"DUnprot", "a10781f6"}, // fixed: null / empty / [null] countersignature
+		{"DSign1", "d28440a107f6f64101"},
+	} {
+		b := unhex(cs.hex)
+		d := decodeCase(c, "corpus/"+cs.kind, cs.kind, b)
+		c05Oracle(c, cs.kind, b, &d)
+	}
 	for _, kind := range kinds {
 		for i := 0; i < n; i++ {
 			cfg := defaultCfg
@@ -41,6 +57,7 @@ func runC05(c *Collector, r *Rng, thorough bool) {
 			if d.err != nil && !d.paniced {
 				c.Dist["valid-rejected/"+kind]++
 			}
+			c05Oracle(c, kind, base, &d)
 			// cross-kind: no decoder accepts another kind's encoding
 			other := pick(r, kinds[:4])
 			if other != kind && kind != "DProt" && kind != "DUnprot" {
@@ -56,14 +73,82 @@ func runC05(c *Collector, r *Rng, thorough bool) {
 				if j == 2 {
 					desc += "+" + mutateTree(r, &m)
 				}
-				decodeCase(c, "tree-fault/"+desc, kind, m.Ser())
+				md := decodeCase(c, "tree-fault/"+desc, kind, m.Ser())
+				c05Oracle(c, kind, m.Ser(), &md)
 			}
 			// byte faults
 			b, desc := mutateBytes(r, base)
-			decodeCase(c, "byte-fault/"+desc, kind, b)
+			bd := decodeCase(c, "byte-fault/"+desc, kind, b)
+			c05Oracle(c, kind, b, &bd)
 		}
 		for i := 0; i < n/4; i++ {
-			decodeCase(c, "random-bytes", kind, r.Bytes(r.Intn(24)))
+			rb := r.Bytes(r.Intn(24))
+			rd := decodeCase(c, "random-bytes", kind, rb)
+			c05Oracle(c, kind, rb, &rd)
 		}
+	}
+}
+
+// strip55799 removes every self-described-CBOR tag wrapper (also inside
+// protected-header byte strings of the envelope positions).
+func strip55799(w *W, openBstr bool) *W {
+	if w.Maj == 6 && w.Val == 55799 {
+		return strip55799(w.Kids[0], openBstr)
+	}
+	c := *w
+	c.Kids = make([]*W, len(w.Kids))
+	for i, k := range w.Kids {
+		c.Kids[i] = strip55799(k, false)
+	}
+	return &c
+}
+
+func stripInProtected(kind string, data []byte) []byte {
+	w, err := refParseFull(data)
+	if err != nil {
+		return data
+	}
+	var fix func(n *W)
+	fixProt := func(p *W) {
+		if p.Maj == 2 && len(p.Str) > 0 {
+			if inner, err := refParseFull(p.Str); err == nil {
+				p.Str = strip55799(inner, false).Ser()
+				p.Width = pickW(uint64(len(p.Str)), -1)
+			}
+		}
+	}
+	fix = func(n *W) {
+		if n.Maj == 4 && len(n.Kids) >= 3 && n.Kids[0].Maj == 2 && n.Kids[1].Maj == 5 {
+			fixProt(n.Kids[0])
+		}
+		for _, k := range n.Kids {
+			fix(k)
+		}
+	}
+	switch kind {
+	case "DProt":
+		fixProt(w)
+	case "DUnprot":
+		w = strip55799(w, false)
+		fix(w)
+	default:
+		fix(w)
+	}
+	return w.Ser()
+}
+
+// c05Oracle: whatever a decoder accepts must satisfy the C05 conditions, checked
+// on the bytes by the harness's own reader.
+func c05Oracle(c *Collector, kind string, data []byte, d *decoded) {
+	if d.err != nil || d.paniced {
+		return
+	}
+	if err := refMessageOK(kind, data); err != nil {
+		key := "C05/accepted-malformed"
+		if bytes.Contains(data, []byte{0xd9, 0xd9, 0xf7}) && refMessageOK(kind, stripInProtected(kind, data)) == nil {
+			// the only fault is a self-described tag (55799) that the CBOR library strips
+			key = "C05/selfdescribed-tag-stripped"
+		}
+		c.Fail(key, kind+" decoder accepted input violating C05: "+err.Error(), map[string]any{"kind": kind, "data": hx(data)})
 	}
 }
